@@ -876,6 +876,59 @@ func (e *Engine) onlyCalledDirectly(fn *ssa.Function) bool {
 	return called
 }
 
+// unreferenced: fn is dead code — no instruction of the package calls it or uses it as a value, and (for a method) no
+// interface declared in the package has a method of that name through which it could be reached.
+func (e *Engine) unreferenced(fn *ssa.Function) bool {
+	for f := range e.fnName {
+		if f == fn {
+			continue
+		}
+		for _, b := range f.Blocks {
+			for _, in := range b.Instrs {
+				if ci, ok := in.(ssa.CallInstruction); ok {
+					if sc := ci.Common().StaticCallee(); sc != nil {
+						if o := sc.Origin(); o != nil {
+							sc = o
+						}
+						if sc == fn {
+							return false
+						}
+					}
+				}
+				var ops []*ssa.Value
+				for _, op := range in.Operands(ops) {
+					if op == nil || *op == nil {
+						continue
+					}
+					if af, ok := (*op).(*ssa.Function); ok {
+						if o := af.Origin(); o != nil {
+							af = o
+						}
+						if af == fn {
+							return false
+						}
+					}
+				}
+			}
+		}
+	}
+	if fn.Signature.Recv() != nil {
+		scope := e.pkg.Pkg.Scope()
+		for _, n := range scope.Names() {
+			if tn, ok := scope.Lookup(n).(*types.TypeName); ok {
+				if it, ok := tn.Type().Underlying().(*types.Interface); ok {
+					for i := 0; i < it.NumMethods(); i++ {
+						if it.Method(i).Name() == fn.Name() {
+							return false
+						}
+					}
+				}
+			}
+		}
+	}
+	return true
+}
+
 // returnOrdinal: index (in block order) of the Return instruction the top frame is exiting through.
 func returnOrdinal(fr *Frame) int {
 	if fr.Block == nil {
